@@ -91,6 +91,11 @@ def extract(repo=C.REPO, harness=None):
             actions[v] = f".unit ({unit_expr_key(lines[1], idmap)}) ({m.group(1)})"
             continue
         alone = "none"
+        alone_lit = None
+        msl = re.fullmatch(r'if lexer\.remainder\(\)\.is_empty\(\) && lexer\.slice\(\) == "((?:[^"\\]|\\.)*)" \{', lines[0])
+        if msl:
+            alone_lit = msl.group(1)
+            lines[0] = "if lexer.remainder().is_empty() {"
         if lines[0] == "if lexer.remainder().is_empty() {":
             j = lines.index("}")
             inner = lines[1:j]
@@ -111,7 +116,7 @@ def extract(repo=C.REPO, harness=None):
             raise ExtractError(f"Combined::{v}: unexpected block {lines}")
         if mp.group(1) not in prefixes:
             raise ExtractError(f"Prefix::{mp.group(1)} unknown")
-        actions[v] = f".pfx ({prefixes[mp.group(1)]}) ({alone})"
+        actions[v] = (f".pfx ({prefixes[mp.group(1)]}) ({alone})", alone_lit, f".pfx ({prefixes[mp.group(1)]}) (none)")
     uactions = {}
     for v, blk in re.findall(r"Units::(\w+) => \{(.*?)\n            \}", second, re.S):
         lines = [l.strip() for l in blk.strip().splitlines() if l.strip()]
@@ -135,7 +140,11 @@ def extract(repo=C.REPO, harness=None):
         if v not in actions:
             raise ExtractError(f"no arm for Combined::{v}")
         for l in lits:
-            comb_rows.append((l, actions[v]))
+            a = actions[v]
+            if isinstance(a, tuple):
+                # the stand-alone special case may be tied to one spelling (`lexer.slice() == "…"`)
+                a = a[0] if (a[1] is None or a[1] == l) else a[2]
+            comb_rows.append((l, a))
     for v, lits in units:
         if v not in uactions:
             raise ExtractError(f"no arm for Units::{v}")
